@@ -346,6 +346,19 @@ def r05_6(ctx):
         ok = isinstance(v, AObj) and v.cls == "Sequence"
         effs = seq_effects(v) if ok else [lab(v)]
         ctx.check("a = b = e order", ok and len(effs) == 2 and effs[0] == "items[2]" and effs[1].startswith("Assignment("), "[inner assignment, outer assignment]", str([e[:40] for e in effs]), fn_where(idx, fi))
+    # ... and, being sequenced after it, the outer assignment must not evaluate the inner source expression again (it may read
+    # the inner target): `b = a = a + b`
+    r = Runner(idx)
+
+    def chained_var():
+        inner = AObj("Assignment", {"src": r.pure("inner.src", cls="ArithmeticOp"), "dest": r.pure("inner.dest", cls="LocalVar"), "assign_type": am["="]}, label="items[2]", opaque=True)
+        return [r.pure("items[0]", vt=mk_vt("t0", True, 32)), Tok("ASSIGN_OP", "="), inner]
+
+    fi, outs = r.run("assignment_expr", chained_var, may_subclass=True)
+    for o in [o for o in outs if o.kind != "raise"]:
+        assigns = [e[2] for e in o.events if e[0] == "node" and e[1] == "Assignment"]
+        srcs = sorted({origin(lab(a.fields.get("src"))) for a in assigns})
+        ctx.check("a = b = e: the outer assignment takes the value of the variable b, not a second evaluation of e", srcs == ["inner.dest"], "source originates from inner.dest", str(srcs), fn_where(idx, fi))
 
 
 @rule("R05.7", "C05", "statements without effect produce Empty / nothing else; stale pending effects never enter the next behaviour", min_instances=4)
